@@ -227,6 +227,9 @@ Definition check_case (c : case) : bool :=
          model, c11_zero_length_write_is_noop): the write payloads, in place, are the chunks, and together they are
          the data. Order and presence of open (with its flags: Create), fsync, close, rename are compared exactly. *)
       negb (String.eqb tmp target) (* the atomicity theorem needs a temp name different from the target *) &&
+      (* the replacement file is written NEXT TO the target (same directory, so the rename cannot cross file systems):
+         its recorded name is "<target>.<suffix>"; a file elsewhere is recorded as "$TMPDIR/..." by the harness *)
+      String.prefix (target +:+ ".") tmp &&
       ops_eqb recorded (snapshot_ops_chunks tmp target (writes_of recorded)) &&
       bytes_eqb (concat (writes_of recorded)) data
   | CCrash store target old new ops pts =>
